@@ -156,6 +156,21 @@ def second_call_cases(ctx, rep):
     return n
 
 
+def open_face_specs(ctx):
+    """The constraint excludes a face of the (closed) box, the optimum lies beyond that face, and the run goes on until the mesh is fine: the
+    incumbent ends up within 1e-5 of the range from the bound without being on it - and that, not a tidied-up copy of it, is what is returned."""
+    from .. import gen
+    rng = ctx.sub_rng("c02face")
+    specs = []
+    for mode in (("det", "decl") if ctx.quick else ("det", "det", "decl", "he", "auto", "det")):
+        sp = gen.make_spec(rng, D=2, geom=rng.choice(["box", "tight"]), mode=mode, cons="openface", opt_loc="outside", target="quad")
+        sp["cons_scale"] = 1.0
+        sp["noise"] = 0.05 if mode != "det" else 0.0
+        sp["options"] = {"max_fun_evals": 260 if mode == "det" else 320, "noise_final_samples": 2}
+        specs.append(sp)
+    return specs
+
+
 def small_table_specs(ctx):
     """Constrained runs (every noise mode) whose evaluation table (`cache_size`) is smaller than the initial design, so that it has to grow
     while the start point and the initial design are being evaluated; non-identity variable transform; final re-sampling on."""
@@ -176,6 +191,7 @@ def run(ctx):
     ncon, cstats = construction_cases(ctx, rep)
     cstats["second_calls"] = second_call_cases(ctx, rep)
     runlevel.with_extra(ctx, "c02table", lambda: small_table_specs(ctx))
+    runlevel.with_extra(ctx, "c02face", lambda: open_face_specs(ctx))
     runlevel.with_extra(ctx, "c02coarse", lambda: coarse_specs(ctx))
     runlevel.with_extra(ctx, "c02toggle", lambda: option_toggle_specs(ctx))
     stats, samples = runlevel.pipe_replay(ctx, rep, "C02")
